@@ -1,5 +1,5 @@
 ---------------------------- MODULE MetaCatalogMC ----------------------------
-EXTENDS MetaCatalog, Json
+EXTENDS MetaCatalog, Json, Randomization
 \* Export of behaviours for replay into the real catalogue code (Mode B): one JSON line per behaviour
 \* that reached the depth bound.
 \* constants with negative numbers cannot be written in a cfg file
@@ -36,7 +36,16 @@ SimPick(c, E, j) ==
            op == IF W = <<>> THEN RandomElement({x.op : x \in E}) ELSE W[RandomElement(1..Len(W))]
        IN RandomElement({x \in E : x.op = op})
   ELSE RandomElement(CmdsOf(RandomElement(Ops \ {"Snapshot", "UpdateReplication"}), c))
+\* (the effective commands are looked for in a random sample of at most 10 commands per type)
+SimSample(c) == UNION {LET S == CmdsOf(op, c) IN IF Cardinality(S) <= 10 THEN S ELSE RandomSubset(10, S) :
+                         op \in Ops \ {"Snapshot"}}
 SimCmds == UNION {{y \in {SimPick(cat, E, j) : j \in 1..3} : ~Panicky(y) \/ RandomElement(1..8) = 1} :
-                  E \in {Effective(cat, AllCmds(cat))}}
+                  E \in {Effective(cat, SimSample(cat))}}
+\* BFS export: every path of effective commands (plus one failing command per type) of a tiny universe,
+\* following the set-up prefix, so that paths reach shard groups within the depth bound
+BfsCmds == {x \in Effective(cat, AllCmds(cat)) :
+               /\ ~(x.op = "CreateDataNode" /\ cat.nodes # <<>>)               \* no bare connection-id bumps
+               /\ ~(x.op = "UpdateRetentionPolicy" /\ (x.l[1] = 1 \/ x.b # -1)) \* shard-group duration changes only
+               /\ ~(x.op = "CreateDatabase" /\ x.rp = "")}
 SimSnapGate == RandomElement(1..6) = 1 /\ (cat.maxMst > 0 \/ RandomElement(1..4) = 1)
 =============================================================================
